@@ -294,3 +294,252 @@ def bindProcess (msg : Msg) (addrlen : Nat) (altLen : Option Nat) :
   | _, .error e => .error e
 
 end Nice.Stun
+
+/-! ### TURN usage (stun/usages/turn.c) -/
+
+namespace Nice.Stun
+open Nice.Gen
+
+private def tt (n : Nat) : UInt16 := UInt16.ofNat n
+
+abbrev BuildR := M (Nat × Agent × Msg)
+
+/-- `if (append… != STUN_MESSAGE_RETURN_SUCCESS) return 0;` then continue with the new buffer -/
+def tryApp (ag : Agent) (msg : Msg) (r : M (Ret × Bytes)) (k : Msg → BuildR) : BuildR :=
+  match r with
+  | .error e => .error e
+  | .ok (.success, b) => k { msg with buf := b }
+  | .ok (_, b) => .ok (0, ag, { msg with buf := b })
+
+def isTurnStd (compat : Nat) : Bool :=
+  compat == STUN_USAGE_TURN_COMPATIBILITY_DRAFT9 || compat == STUN_USAGE_TURN_COMPATIBILITY_RFC5766
+
+/-- copy an attribute of `previous_response` (if present) into the message -/
+def copyPrevAttr (ag : Agent) (msg : Msg) (prev : Msg) (type : UInt16) (k : Msg → BuildR) : BuildR :=
+  match find prev.agent prev.buf type with
+  | .error e => .error e
+  | .ok none => k msg
+  | .ok (some (off, len)) =>
+    match rdBytes prev.buf off len.toNat with
+    | .error e => .error e
+    | .ok v => tryApp ag msg (appendBytes (some ag.cfg) msg.buf type v) k
+
+/-- the USERNAME rule shared by allocate and refresh -/
+def turnUsername (ag : Agent) (msg : Msg) (hasPrev : Bool) (username : Option Bytes) (k : Msg → BuildR) : BuildR :=
+  match username with
+  | some u =>
+    if u.size > 0 && (ag.cfg.has STUN_AGENT_USAGE_SHORT_TERM_CREDENTIALS || hasPrev) then
+      tryApp ag msg (appendBytes (some ag.cfg) msg.buf tUSERNAME u) k
+    else k msg
+  | none => k msg
+
+/-- `stun_usage_turn_create` -/
+def turnCreate (H : Hashes) (ag : Agent) (buf id : Bytes) (prev : Option Msg) (requestProps : Nat)
+    (bandwidth lifetime : Int) (username password : Option Bytes) (compat : Nat) : BuildR :=
+  match initRequest ag buf STUN_ALLOCATE id with
+  | .error e => .error e
+  | .ok (false, msg) => .ok (0, ag, msg)
+  | .ok (true, msg) =>
+    let a := some ag.cfg
+    let s1 (k : Msg → BuildR) : BuildR :=
+      if isTurnStd compat then
+        tryApp ag msg (append32 a msg.buf (tt STUN_ATTRIBUTE_REQUESTED_TRANSPORT) (UInt32.ofNat TURN_REQUESTED_TRANSPORT_UDP))
+          fun m => if bandwidth >= 0 then
+              tryApp ag m (append32 a m.buf (tt STUN_ATTRIBUTE_BANDWIDTH) (UInt32.ofNat bandwidth.toNat)) k
+            else k m
+      else tryApp ag msg (append32 a msg.buf (tt STUN_ATTRIBUTE_MAGIC_COOKIE) (UInt32.ofNat TURN_MAGIC_COOKIE)) k
+    s1 fun m =>
+    let s2 (k : Msg → BuildR) : BuildR :=
+      if compat == STUN_USAGE_TURN_COMPATIBILITY_OC2007 then
+        tryApp ag m (append32 a m.buf (tt STUN_ATTRIBUTE_MS_VERSION) 1) k
+      else k m
+    s2 fun m =>
+    let s3 (k : Msg → BuildR) : BuildR :=
+      if lifetime >= 0 then tryApp ag m (append32 a m.buf (tt STUN_ATTRIBUTE_LIFETIME) (UInt32.ofNat lifetime.toNat)) k
+      else k m
+    s3 fun m =>
+    let s4 (k : Msg → BuildR) : BuildR :=
+      if isTurnStd compat && requestProps != STUN_USAGE_TURN_REQUEST_PORT_NORMAL then
+        let req : Nat :=
+          if requestProps &&& STUN_USAGE_TURN_REQUEST_PORT_EVEN_AND_RESERVE != 0 then REQUESTED_PROPS_R ||| REQUESTED_PROPS_E
+          else if requestProps &&& STUN_USAGE_TURN_REQUEST_PORT_EVEN != 0 then REQUESTED_PROPS_E else 0
+        tryApp ag m (append32 a m.buf (tt STUN_ATTRIBUTE_REQUESTED_PORT_PROPS) (UInt32.ofNat req)) k
+      else k m
+    s4 fun m =>
+    let s5 (k : Msg → BuildR) : BuildR :=
+      match prev with
+      | some p =>
+        copyPrevAttr ag m p tREALM fun m =>
+        copyPrevAttr ag m p tNONCE fun m =>
+        match find64 p.agent p.buf (tt STUN_ATTRIBUTE_RESERVATION_TOKEN) with
+        | .error e => .error e
+        | .ok (.success, tok) => tryApp ag m (append64 a m.buf (tt STUN_ATTRIBUTE_RESERVATION_TOKEN) tok) k
+        | .ok _ => k m
+      | none => k m
+    s5 fun m =>
+    turnUsername ag m prev.isSome username fun m => finishMessage H ag m password
+
+/-- `stun_usage_turn_create_refresh` -/
+def turnCreateRefresh (H : Hashes) (ag : Agent) (buf id : Bytes) (prev : Option Msg) (lifetime : Int)
+    (username password : Option Bytes) (compat : Nat) : BuildR :=
+  if !isTurnStd compat then
+    turnCreate H ag buf id prev STUN_USAGE_TURN_REQUEST_PORT_NORMAL 0 lifetime username password compat
+  else
+  match initRequest ag buf STUN_REFRESH id with
+  | .error e => .error e
+  | .ok (false, msg) => .ok (0, ag, msg)
+  | .ok (true, msg) =>
+    let a := some ag.cfg
+    let s1 (k : Msg → BuildR) : BuildR :=
+      if lifetime >= 0 then tryApp ag msg (append32 a msg.buf (tt STUN_ATTRIBUTE_LIFETIME) (UInt32.ofNat lifetime.toNat)) k
+      else k msg
+    s1 fun m =>
+    let s2 (k : Msg → BuildR) : BuildR :=
+      match prev with
+      | some p => copyPrevAttr ag m p tREALM fun m => copyPrevAttr ag m p tNONCE k
+      | none => k m
+    s2 fun m =>
+    turnUsername ag m prev.isSome username fun m => finishMessage H ag m password
+
+/-- `stun_usage_turn_create_permission` (`peer = none` : NULL, returns 0 without touching `msg`) -/
+def turnCreatePermission (H : Hashes) (ag : Agent) (old : Msg) (buf id : Bytes)
+    (username password realm nonce : Option Bytes) (peer : Option SockAddr) (compat : Nat) : BuildR :=
+  let _ := compat
+  match peer with
+  | none => .ok (0, ag, old)
+  | some peer =>
+  match initRequest ag buf STUN_CREATEPERMISSION id with
+  | .error e => .error e
+  | .ok (false, msg) => .ok (0, ag, msg)
+  | .ok (true, msg) =>
+    let a := some ag.cfg
+    tryApp ag msg (appendXorAddr a msg.buf (tt STUN_ATTRIBUTE_XOR_PEER_ADDRESS) peer sizeofStorage) fun m =>
+    let s1 (k : Msg → BuildR) : BuildR :=
+      match nonce with
+      | some n => tryApp ag m (appendBytes a m.buf tNONCE n) k
+      | none => k m
+    s1 fun m =>
+    let s2 (k : Msg → BuildR) : BuildR :=
+      match realm with
+      | some r => tryApp ag m (appendBytes a m.buf tREALM r) k
+      | none => k m
+    s2 fun m =>
+    let s3 (k : Msg → BuildR) : BuildR :=
+      match username with
+      | some u =>
+        if ag.cfg.has STUN_AGENT_USAGE_SHORT_TERM_CREDENTIALS || (nonce.isSome && realm.isSome) then
+          tryApp ag m (appendBytes a m.buf tUSERNAME u) k
+        else k m
+      | none => k m
+    s3 fun m => finishMessage H ag m password
+
+/-- out-parameters of `stun_usage_turn_process` as far as they were written -/
+structure TurnOut where
+  ret : Nat
+  relay : Option SockAddr := none
+  relayLen : Nat
+  addr : Option SockAddr := none
+  addrLen : Nat
+  alt : Option SockAddr := none
+  altLen : Option Nat
+  bandwidth : Option UInt32 := none
+  lifetime : Option UInt32 := none
+  deriving Repr, Inhabited
+
+/-- `stun_usage_turn_process` -/
+def turnProcess (msg : Msg) (relayLen addrLen : Nat) (altLen : Option Nat) (compat : Nat) : M TurnOut :=
+  let a := msg.agent
+  let o0 : TurnOut := { ret := STUN_USAGE_TURN_RETURN_RELAY_SUCCESS, relayLen := relayLen, addrLen := addrLen, altLen := altLen }
+  match getMethod msg.buf, getClass msg.buf with
+  | .ok method, .ok cls =>
+    if method != STUN_ALLOCATE then .ok { o0 with ret := STUN_USAGE_TURN_RETURN_INVALID }
+    else if cls == STUN_REQUEST || cls == STUN_INDICATION then .ok { o0 with ret := STUN_USAGE_TURN_RETURN_INVALID }
+    else if cls == STUN_ERROR then
+      match findError a msg.buf with
+      | .error e => .error e
+      | .ok (.success, code) =>
+        -- MS alternate server (result only logged)
+        let o1R : M TurnOut :=
+          match altLen with
+          | some al =>
+            if compat == STUN_USAGE_TURN_COMPATIBILITY_OC2007 then
+              match findAddr a msg.buf (tt STUN_ATTRIBUTE_MS_ALTERNATE_SERVER) al with
+              | .error e => .error e
+              | .ok (_, ad, al') => .ok { o0 with alt := ad, altLen := some al' }
+            else .ok o0
+          | none => .ok o0
+        match o1R with
+        | .error e => .error e
+        | .ok o1 =>
+          if code / 100 == 3 then
+            match o1.altLen with
+            | some al =>
+              match findAddr a msg.buf (tt STUN_ATTRIBUTE_ALTERNATE_SERVER) al with
+              | .error e => .error e
+              | .ok (.success, ad, al') =>
+                .ok { o1 with alt := ad, altLen := some al', ret := STUN_USAGE_TURN_RETURN_ALTERNATE_SERVER }
+              | .ok (_, _, al') => .ok { o1 with altLen := some al', ret := STUN_USAGE_TURN_RETURN_ERROR }
+            | none =>
+              match hasAttribute a msg.buf (tt STUN_ATTRIBUTE_ALTERNATE_SERVER) with
+              | .error e => .error e
+              | .ok true => .ok { o1 with ret := STUN_USAGE_TURN_RETURN_ALTERNATE_SERVER }
+              | .ok false => .ok { o1 with ret := STUN_USAGE_TURN_RETURN_ERROR }
+          else .ok { o1 with ret := STUN_USAGE_TURN_RETURN_ERROR }
+      | .ok _ => .ok { o0 with ret := STUN_USAGE_TURN_RETURN_INVALID }
+    else
+      -- mapped (reflexive) address, then the relayed address; per dialect
+      let mappedR : M (Ret × Option SockAddr × Nat) :=
+        if isTurnStd compat then findXorAddr a msg.buf (tt STUN_ATTRIBUTE_XOR_MAPPED_ADDRESS) addrLen
+        else if compat == STUN_USAGE_TURN_COMPATIBILITY_MSN then
+          findAddr a msg.buf (tt STUN_ATTRIBUTE_MSN_MAPPED_ADDRESS) addrLen
+        else if compat == STUN_USAGE_TURN_COMPATIBILITY_OC2007 then
+          match msnCookie msg.buf with
+          | .error e => .error e
+          | .ok ck => findXorAddrFull a msg.buf (tt STUN_ATTRIBUTE_MS_XOR_MAPPED_ADDRESS) addrLen ck
+        else .ok (.notFound, none, addrLen)        -- GOOGLE: no mapped address lookup
+      match mappedR with
+      | .error e => .error e
+      | .ok (mr, mad, mal) =>
+        let isDialect := isTurnStd compat || compat == STUN_USAGE_TURN_COMPATIBILITY_GOOGLE ||
+          compat == STUN_USAGE_TURN_COMPATIBILITY_MSN || compat == STUN_USAGE_TURN_COMPATIBILITY_OC2007
+        let r1 := if mr == .success then STUN_USAGE_TURN_RETURN_MAPPED_SUCCESS else STUN_USAGE_TURN_RETURN_RELAY_SUCCESS
+        let o1 : TurnOut := { o0 with addr := mad, addrLen := mal, ret := r1 }
+        let relayR : M (Ret × Option SockAddr × Nat) :=
+          if isTurnStd compat then findXorAddr a msg.buf (tt STUN_ATTRIBUTE_RELAY_ADDRESS) relayLen
+          else if isDialect then findAddr a msg.buf (tt STUN_ATTRIBUTE_MAPPED_ADDRESS) relayLen
+          else .ok (.success, none, relayLen)       -- unknown compatibility value: no lookup at all
+        match relayR with
+        | .error e => .error e
+        | .ok (.success, rad, ral) =>
+          match find32 a msg.buf (tt STUN_ATTRIBUTE_LIFETIME), find32 a msg.buf (tt STUN_ATTRIBUTE_BANDWIDTH) with
+          | .ok (lr, lv), .ok (br, bv) =>
+            let o2 : TurnOut := { o1 with relay := rad, relayLen := ral }
+            let o3 : TurnOut := { o2 with lifetime := if lr == .success then some lv else none }
+            .ok { o3 with bandwidth := if br == .success then some bv else none }
+          | .error e, _ => .error e
+          | _, .error e => .error e
+        | .ok (_, rad, ral) => .ok { o1 with relay := rad, relayLen := ral, ret := STUN_USAGE_TURN_RETURN_ERROR }
+  | .error e, _ => .error e
+  | _, .error e => .error e
+
+/-- `stun_usage_turn_refresh_process` : (return, lifetime if written) -/
+def turnRefreshProcess (msg : Msg) (compat : Nat) : M (Nat × Option UInt32) :=
+  let a := msg.agent
+  match getMethod msg.buf, getClass msg.buf with
+  | .ok method, .ok cls =>
+    if method != (if isTurnStd compat then STUN_REFRESH else STUN_ALLOCATE) then .ok (STUN_USAGE_TURN_RETURN_INVALID, none)
+    else if cls == STUN_REQUEST || cls == STUN_INDICATION then .ok (STUN_USAGE_TURN_RETURN_INVALID, none)
+    else if cls == STUN_ERROR then
+      match findError a msg.buf with
+      | .error e => .error e
+      | .ok (.success, _) => .ok (STUN_USAGE_TURN_RETURN_ERROR, none)
+      | .ok _ => .ok (STUN_USAGE_TURN_RETURN_INVALID, none)
+    else
+      match find32 a msg.buf (tt STUN_ATTRIBUTE_LIFETIME) with
+      | .error e => .error e
+      | .ok (.success, v) => .ok (STUN_USAGE_TURN_RETURN_RELAY_SUCCESS, some v)
+      | .ok _ => .ok (STUN_USAGE_TURN_RETURN_RELAY_SUCCESS, none)
+  | .error e, _ => .error e
+  | _, .error e => .error e
+
+end Nice.Stun
